@@ -328,6 +328,64 @@ def run_ext(ctx, prop):
     run_ops(ctx, prop, "OpMC_ext", EXT_BODY, "ExtCfgs", "ExtUniverse", 3, randoms, sig_ext, [prop], sample=0 if thorough else 6000)
 
 
+PIPE_BODY = r'''
+PAggs == <<[k |-> "count", c |-> 3], [k |-> "sum", c |-> 3]>>
+PlainGb(trig) == [op |-> "gb", keys |-> <<2>>, aggs |-> PAggs, ktidx |-> 0, trig |-> trig, simple |-> FALSE]
+TimeGb == [op |-> "gb", keys |-> <<1, 2>>, aggs |-> PAggs, ktidx |-> 1, trig |-> <<[k |-> "wm"]>>, simple |-> FALSE]
+PJTable == << <<IntV(1), StrV("a")>>, <<IntV(1), StrV("b")>>, <<IntV(2), StrV("a")>> >>
+PipeCfgs == {[op |-> "pipe", stages |-> <<[op |-> "filter", col |-> 3, eq |-> IntV(1)], PlainGb(<<[k |-> "count", n |-> 1]>>)>>],
+             [op |-> "pipe", stages |-> <<[op |-> "etbuf"], TimeGb>>],
+             [op |-> "pipe", stages |-> <<[op |-> "map", cols |-> <<3, 2, 3>>], [op |-> "distinct"]>>],
+             [op |-> "pipe", stages |-> <<[op |-> "lookup", col |-> 3, jcol |-> 1, table |-> PJTable, tflags |-> <<FALSE, FALSE, FALSE>>], [op |-> "orderby", keys |-> <<5, 2>>, dirs |-> <<-1, 1>>, limit |-> -1]>>],
+             [op |-> "pipe", stages |-> <<[op |-> "distinct"], [op |-> "filter", col |-> 3, eq |-> IntV(1)], [op |-> "etbuf"]>>],
+             [op |-> "pipe", stages |-> <<PlainGb(<<[k |-> "count", n |-> 2], [k |-> "eos"]>>), [op |-> "orderby", keys |-> <<2>>, dirs |-> <<-1>>, limit |-> 1]>>],
+             [op |-> "pipe", stages |-> <<PlainGb(<<[k |-> "count", n |-> 1]>>), [op |-> "orderby", keys |-> <<3, 1>>, dirs |-> <<1, 1>>, limit |-> 2]>>],
+             [op |-> "pipe", stages |-> <<[op |-> "etbuf"], [op |-> "filter", col |-> 3, eq |-> IntV(1)], [op |-> "etbuf"]>>]}
+(* for C18 the time-keyed grouping is left out: its key time is a column of the row, which this universe does not tie to the record's event time *)
+PipeCfgsC18 == {c \in PipeCfgs : \A i \in 1..Len(c.stages) : c.stages[i] # TimeGb}
+PipeUniverse(c) == {Rec(<<TimeV(1), StrV(nm), v>>, r, t) : nm \in {"a", "b"}, v \in {IntV(1), IntV(2), NullV}, r \in BOOLEAN, t \in 0..2} \cup {Wm(1), Wm(2)}
+'''
+
+
+def pipe_random_scripts(rng, n, maxlen, late):
+    out = []
+    rows = [[V_time(1), V_str(nm), v] for nm in ("a", "b", "c") for v in (V_int(1), V_int(2), V_int(3), NULL)]
+    aggs = [{"k": "count", "c": 3}, {"k": "sum", "c": 3}]
+    plain = lambda trig: {"op": "gb", "keys": [2], "aggs": aggs, "ktidx": 0, "trig": trig, "simple": False}
+    timegb = {"op": "gb", "keys": [1, 2], "aggs": aggs, "ktidx": 1, "trig": [{"k": "wm"}], "simple": False}
+    jt = [[V_int(1), V_str("a")], [V_int(1), V_str("b")], [V_int(2), V_str("a")], [V_int(3), V_str("c")]]
+    pipes = [[{"op": "filter", "col": 3, "eq": V_int(1)}, plain([{"k": "count", "n": 1}])],
+             [{"op": "etbuf"}, timegb],
+             [{"op": "map", "cols": [3, 2, 3]}, {"op": "distinct"}],
+             [{"op": "lookup", "col": 3, "jcol": 1, "table": jt, "tflags": [False] * 4}, {"op": "orderby", "keys": [5, 2], "dirs": [-1, 1], "limit": -1}],
+             [{"op": "distinct"}, {"op": "filter", "col": 3, "eq": V_int(2)}, {"op": "etbuf"}],
+             [plain([{"k": "count", "n": 2}, {"k": "eos"}]), {"op": "orderby", "keys": [2], "dirs": [-1], "limit": 1}],
+             [plain([{"k": "count", "n": 1}]), {"op": "orderby", "keys": [3, 1], "dirs": [1, 1], "limit": 2}],
+             [plain([{"k": "count", "n": 1}]), {"op": "orderby", "keys": [2, 1], "dirs": [-1, 1], "limit": 3}],
+             [{"op": "etbuf"}, {"op": "filter", "col": 3, "eq": V_int(1)}, {"op": "etbuf"}],
+             [{"op": "unnest_prep"}]]
+    pipes = [p for p in pipes if p[0]["op"] != "unnest_prep"]
+    if not late:
+        pipes = [p for p in pipes if timegb not in p]
+    for _ in range(n):
+        out.append({"cfg": {"op": "pipe", "stages": rng.choice(pipes)}, "in": random_script(rng, rows, maxlen, [0, 1, 2, 3, 4], max_wm=4, late=late)})
+    return out
+
+
+def sig_pipe(f):
+    cfg = f["header"]["cfg"]
+    return {"site": "pipeline " + ">".join(st["op"] for st in cfg["stages"]), "why": f["why"].split(":")[0], "reason": f["why"].split(":", 1)[-1].strip()[:60]}
+
+
+def run_pipes(ctx, prop):
+    """small pipelines of operators (the output changelog of one is the input of the next): model-checked composition, replay, trace validation"""
+    thorough = ctx.tier == "thorough"
+    rng = random.Random(ctx.seed * 6007 + 13)
+    late = prop != "C18"
+    randoms = pipe_random_scripts(rng, 2500 if thorough else 300, 50 if thorough else 25, late)
+    run_ops(ctx, prop, "OpMC_pipe", PIPE_BODY, "PipeCfgsC18" if prop == "C18" else "PipeCfgs", "PipeUniverse", 3, randoms, sig_pipe, [prop], sample=0 if thorough else 5000)
+
+
 def sig_ext(f):
     cfg = f["header"]["cfg"]
     sig = {"site": "nodes." + cfg["op"], "why": f["why"].split(":")[0], "reason": f["why"].split(":", 1)[-1].strip()[:60]}
